@@ -213,6 +213,30 @@ func (r *runner) judgeExport(c Case, ex *exported) bool {
 		rec.HarnessError("source of %s is incomplete: %v", c, ex.SrcProbs)
 		return false
 	}
+	if ex.EC.Damage != "" {
+		// a blob of the image is damaged at the source: the export must either report it or still
+		// produce a valid layout
+		if ex.Err != nil {
+			if strings.HasPrefix(ex.Err.Error(), "harness:") {
+				rec.HarnessError("%s: %v", c, ex.Err)
+				return false
+			}
+			rec.Count("damaged_source_exports_refused", 1)
+			rec.Distinct("export|" + ex.EC.String())
+			return false
+		}
+		rec.Count("damaged_source_exports_succeeding", 1)
+		for _, f := range ex.Findings {
+			r.violation(c, &verdict{"archive-from-damaged-source:" + f.Clause, fmt.Sprintf("blob %s was damaged at the source, ImageExport returned nil, and the archive is flawed: %s", short(ex.Damaged), f.Msg)})
+			break
+		}
+		if len(ex.Findings) == 0 {
+			// the archive is a valid layout although the source blob was damaged (e.g. the content was
+			// taken from inline data): nothing to object to
+			rec.Count("damaged_source_exports_valid_anyway", 1)
+		}
+		return false
+	}
 	if ex.Err != nil {
 		if strings.HasPrefix(ex.Err.Error(), "harness:") {
 			rec.HarnessError("%s: %v", c, ex.Err)
@@ -531,6 +555,22 @@ func enumerate(thorough bool) []group {
 			}
 		}
 	}
+	// damaged sources
+	for _, gn := range allGraphs() {
+		g := getGraph(gn)
+		for _, src := range []string{"reg", "dir"} {
+			for n := range hostedBlobs(g) {
+				var grp group
+				for _, how := range []string{"flip", "short", "long"} {
+					for _, gz := range bools() {
+						ec := ExportCase{Graph: gn, Src: src, Gzip: gz, Damage: fmt.Sprintf("%d:%s", n, how)}
+						grp.Cases = append(grp.Cases, Case{Fam: "export", Ex: &ec})
+					}
+				}
+				gs = append(gs, grp)
+			}
+		}
+	}
 	// shape
 	permBound := 6
 	if thorough {
@@ -714,7 +754,7 @@ func rule(thorough bool) string {
 		pb, dpb = 7, 8
 		lp = "graphs L-IDX1 and L-CFG0 (5 entries), all forms"
 	}
-	return fmt.Sprintf("exhaustive product, no sampling: [rt] graphs {%s} x source {model registry, OCI layout dir} x source ref by tag/by digest x gzip off/on x export-ref override off/on -> archive oracle (1 evaluation per export), then x target {validating registry, non-validating registry, layout dir} x import selection {none, ImageWithImportName(full name), ImageWithImportName(tag), target ref by digest} (1 evaluation per import); "+
+	return fmt.Sprintf("exhaustive product, no sampling: [damaged] every graph x source {registry, layout} x every hosted blob of the closure damaged at the source in turn {one byte flipped (same length), last byte missing, one byte appended} x gzip off/on: the export must fail or still write a valid layout; [rt] graphs {%s} x source {model registry, OCI layout dir} x source ref by tag/by digest x gzip off/on x export-ref override off/on -> archive oracle (1 evaluation per export), then x target {validating registry, non-validating registry, layout dir} x import selection {none, ImageWithImportName(full name), ImageWithImportName(tag), target ref by digest} (1 evaluation per import); "+
 		"[shape] every graph exported from a registry by tag, its archive re-serialised by the harness as: same order, every permutation of the non-directory entries when there are <= %d of them (otherwise all rotations, the reversal and all rotations of the reversal), directory entries omitted / last, './' name prefix, gzip, an unrelated file or an unrelated blob inserted at every position, and every blob entry (one at a time, and all at once) replaced by a link of each form {%s} to a second copy (symlinks with the copy before and after the link), and one blob entry replaced by a link combined with every order of all entries (%s; orders that put a hard link before its target are skipped as malformed), each x 3 targets; "+
 		"[docker] harness-built Docker-save archives: images 1-2 (sharing the base layer file) x layers 1-3 x style {legacy <id>/layer.tar, flat <hex>.tar, blobs/sha256/<hex>} x layer files plain/gzip x duplicate-layer form {none, copy, symlink, hardlink, same path twice} x LayerSources (blobs style) x whole archive gzip x selection {none, first RepoTag of image 0, second RepoTag of the last image, absent name} x order {as written, reversed, manifest.json last; every permutation for flat archives of <= %d entries} x 3 targets; "+
 		"[multi] harness-built OCI layout archives with two images x index order x selection {ref.name of either, digest of either, none with the target tag equal to the second ref.name, none} x 3 targets (an explicit selection must yield exactly that image; without one either image, complete, or an error is accepted). "+
